@@ -82,6 +82,14 @@ async fn fixture(base: &Path) -> FileSystem {
     assert!(put(&fs, "b2", "victim", "VICTIM-b2").await);
     assert!(put(&fs, "b2", "dir/nested", "NESTED-b2").await);
     assert!(put(&fs, "b3", "fresh", "FRESH-b3").await);
+    {
+        // a source object of another bucket that carries NO user metadata (copying it makes the backend clean up metadata somewhere)
+        let mut b = PutObjectInput::builder();
+        b.set_bucket("b2".to_owned());
+        b.set_key("plainsrc".to_owned());
+        b.set_body(blob("PLAIN-b2"));
+        assert!(fs.put_object(req(b.build().unwrap())).await.is_ok());
+    }
     fs
 }
 
@@ -182,13 +190,13 @@ async fn run_op(fs: &FileSystem, op: &str, key: &str) -> String {
                 let _ = fs.copy_object(req(i)).await;
             }
         }
-        "copy_cross" | "upload_part_copy_cross" => {
-            // a legitimate cross-bucket source (b2/victim, which has metadata); the destination is addressed to b1
-            if op == "copy_cross" {
+        "copy_cross" | "copy_cross_plain" | "upload_part_copy_cross" => {
+            // a legitimate cross-bucket source (b2/victim, which has metadata, or b2/plainsrc, which has none); the destination is addressed to b1
+            if op != "upload_part_copy_cross" {
                 let mut b = CopyObjectInput::builder();
                 b.set_bucket(b1());
                 b.set_key(k);
-                b.set_copy_source(src("b2", "victim"));
+                b.set_copy_source(src("b2", if op == "copy_cross" { "victim" } else { "plainsrc" }));
                 if let Ok(i) = b.build() {
                     let _ = fs.copy_object(req(i)).await;
                 }
@@ -292,7 +300,7 @@ pub async fn run(workdir: &str) -> Value {
     }
     let ops = [
         "get_object", "head_object", "put_object", "put_object_dir", "delete_object", "delete_objects", "copy_object_src", "copy_object_dst",
-        "list_objects_v2", "multipart", "upload_part_copy", "copy_cross", "upload_part_copy_cross",
+        "list_objects_v2", "multipart", "upload_part_copy", "copy_cross", "copy_cross_plain", "upload_part_copy_cross",
     ];
     let cross_keys: Vec<String> = ["victim", "x", "d/inner", "mine", "dir/nested"].iter().map(|s| (*s).to_owned()).collect();
     let mut violations = vec![];
@@ -301,7 +309,7 @@ pub async fn run(workdir: &str) -> Value {
     let mut before = Snap::new();
     let mut fs = None;
     for op in ops {
-        let cross = op.ends_with("_cross");
+        let cross = op.contains("_cross");
         for key in if cross { &cross_keys } else { &keys } {
             if dirty {
                 fs = Some(fixture(&base).await);
